@@ -42,8 +42,14 @@ _PRISTINE = (dict(_consts.DEFAULT_ENCODING_CHARS), dict(_consts.DEFAULT_ENCODING
 
 
 def reset_defaults():
-    hl7apy._DEFAULT_ENCODING_CHARS = dict(_PRISTINE[0])
-    hl7apy._DEFAULT_ENCODING_CHARS_27 = dict(_PRISTINE[1])
+    # exactly the state of a process that has just imported hl7apy: the module-level defaults ARE the dictionaries of
+    # hl7apy.consts (same objects), with their original contents
+    for const, orig in ((_consts.DEFAULT_ENCODING_CHARS, _PRISTINE[0]), (_consts.DEFAULT_ENCODING_CHARS_27, _PRISTINE[1])):
+        if const != orig:
+            const.clear()
+            const.update(orig)
+    hl7apy._DEFAULT_ENCODING_CHARS = _consts.DEFAULT_ENCODING_CHARS
+    hl7apy._DEFAULT_ENCODING_CHARS_27 = _consts.DEFAULT_ENCODING_CHARS_27
     hl7apy._DEFAULT_VERSION = _PRISTINE[2]
     hl7apy._DEFAULT_VALIDATION_LEVEL = _PRISTINE[3]
 
